@@ -982,17 +982,72 @@ func c10MemGuard(c *core.Collector, x *Ctx) func() {
 
 // ---- attachment server -------------------------------------------------------------------------
 
-func c10AttSession(addr string, id int) (ok bool, timedOut bool, detail string) {
+// recorders of the attachment server under attack (recording-handler part): one per accepted connection, in order of creation
+var c10AttRecs struct {
+	sync.Mutex
+	list []*att.Recorder
+}
+
+// c10AttSession: a complete well-formed upload next to the hostile traffic. Before it, an IMPOSTOR — another terminal (other phone
+// number) that knows which files this one is about to upload — announces exactly those names and sizes, sends one wrong byte
+// into the middle of each and hangs up: whatever a server remembers across connections (resume caches, name indexes) now holds
+// the impostor's leftovers. Half of the uploads are flagged as re-uploads (0x1210 information type 0x01), as a terminal that
+// retries after a lost connection sends them. Replies are checked byte-exactly; with the recording handler the upload's
+// connection must also have reported every fully sent file complete with the original content.
+func c10AttSession(addr string, id int, recording bool) (ok bool, timedOut bool, detail string) {
 	g := gen.G{Rand: core.NewRand(uint64(id), "c10attcanary", 0)}
 	p := attGenPlan(g, 0, false) // JS dialect, well-formed
 	p.Gen = "canary"
+	if id%2 == 1 {
+		p.InfoType = 1
+	}
 	attPartition(g, p, id%3)
+	b := attBuild(p)
+	{
+		bcd := []byte{0, 0, 0, 0x66, byte(id>>8) & 0x77, byte(id) & 0x77}
+		var ws [][]byte
+		ws = append(ws, ref.Build(ref.Params{ID: 0x1210, BCD: bcd, Serial: 1, Body: att.Body1210(consts.ActiveSafetyJS, []byte("T6"), []byte("impostor"), b.files)}))
+		for i, f := range b.files {
+			if f.Size < 3 || len(f.Name) > 50 || i > 3 {
+				continue
+			}
+			ws = append(ws, ref.Build(ref.Params{ID: 0x1211, BCD: bcd, Serial: uint16(2 + i), Body: att.Body1211(f, 0)}))
+			ws = append(ws, append(att.ChunkHeader(consts.ActiveSafetyJS, f.Name, 1, 1), 0xEE))
+		}
+		c10Send(addr, c10Conn{Writes: ws, Close: core.Pick(g.Rand, []string{"fin", "linger"})})
+		time.Sleep(20 * time.Millisecond)
+	}
+	c10AttRecs.Lock()
+	mark := len(c10AttRecs.list)
+	c10AttRecs.Unlock()
 	viol, incon := attRun(p, true, addr)
 	if incon {
 		return false, true, ""
 	}
 	if len(viol) > 0 {
 		return false, false, viol[0][0] + ": " + viol[0][1]
+	}
+	if recording {
+		// the complete events precede the 0x9212 replies that attRun has just checked: no waiting is involved
+		c10AttRecs.Lock()
+		recs := append([]*att.Recorder{}, c10AttRecs.list[mark:]...)
+		c10AttRecs.Unlock()
+		for i, f := range b.files {
+			if b.completeAt[i] < 0 || f.Content == nil {
+				continue
+			}
+			found := false
+			for _, r := range recs {
+				for _, e := range r.Events() {
+					if e.Stage == attachment.ProgressStageStreamDataComplete && e.Cur == string(f.Name) && bytes.Equal(e.Body, f.Content) {
+						found = true
+					}
+				}
+			}
+			if !found {
+				return false, false, fmt.Sprintf("content: file %d (size %d) was sent completely and acknowledged, but no connection reported it complete with the original content (an impostor with another phone number had announced the same names before; information type %d)", i, f.Size, p.InfoType)
+			}
+		}
 	}
 	return true, false, ""
 }
@@ -1006,7 +1061,13 @@ func c10Att(c *core.Collector, x *Ctx, defaultHandler bool) {
 		os.MkdirAll(cwd+"/attwork", 0o755)
 		os.Chdir(cwd + "/attwork")
 	} else {
-		opts = append(opts, attachment.WithFileEventerFunc(func() attachment.FileEventer { return &att.Recorder{} }))
+		opts = append(opts, attachment.WithFileEventerFunc(func() attachment.FileEventer {
+			r := &att.Recorder{}
+			c10AttRecs.Lock()
+			c10AttRecs.list = append(c10AttRecs.list, r)
+			c10AttRecs.Unlock()
+			return r
+		}))
 	}
 	devnull, _ := os.OpenFile("/dev/null", os.O_WRONLY, 0)
 	os.Stdout = devnull // the default handler prints every progress event
@@ -1065,7 +1126,7 @@ func c10Att(c *core.Collector, x *Ctx, defaultHandler bool) {
 				c.Eval()
 				c.NonTrivial(core.HashBytes(cn.Writes...))
 				if i%10 == 9 {
-					ok, to, detail := c10AttSession(addr, x.Batch*100000+a*10000+i)
+					ok, to, detail := c10AttSession(addr, x.Batch*100000+a*10000+i, !defaultHandler)
 					canaries.Add(1)
 					if to {
 						c.Inconclusive()
@@ -1081,7 +1142,7 @@ func c10Att(c *core.Collector, x *Ctx, defaultHandler bool) {
 		}(a)
 	}
 	awg.Wait()
-	ok, to, detail := c10AttSession(addr, x.Batch*100000+99999)
+	ok, to, detail := c10AttSession(addr, x.Batch*100000+99999, !defaultHandler)
 	if to {
 		c.Inconclusive()
 	} else if !ok {
@@ -1372,7 +1433,7 @@ func c10FD(c *core.Collector, x *Ctx) {
 		}
 		aok, ato, detail := false, false, ""
 		for try := 0; try < 40 && !aok; try++ {
-			aok, ato, detail = c10AttSession(attAddr, 9600000+x.Batch*1000+round*50+try)
+			aok, ato, detail = c10AttSession(attAddr, 9600000+x.Batch*1000+round*50+try, false)
 			if !aok {
 				time.Sleep(50 * time.Millisecond)
 			}
